@@ -17,3 +17,5 @@ open RawPanelVerif.C07
 #print axioms stripSvg_content
 #print axioms strip_payload
 #print axioms stripSvg_payload
+#print axioms encoders_frame
+#print axioms topo_lines_content
